@@ -1214,6 +1214,8 @@ class Interp(object):
             c = self.ctx.cell(cont)
             if isinstance(c, PList):
                 return Or(*[self.equals(x, y) for y in c.items])
+            if isinstance(c, (PDict, KVDict)) and self._unhashable(x):
+                self.raise_('TypeError', 'unhashable type')      # membership test of a list / dict / set in a dict or set hashes the key
             if isinstance(c, PDict):
                 if is_sym(x) or isinstance(x, (Opt, NodeV, NodeId, Opaque)):
                     return Or(*[self.equals(x, k) for k in c.items])
@@ -1237,6 +1239,12 @@ class Interp(object):
         if hasattr(cont, 'contains'):
             return cont.contains(self, x)
         raise Undecided('`in` on %r' % (cont,))
+
+    def _unhashable(self, x):
+        if isinstance(x, Ref):
+            c = self.ctx.cell(x)
+            return isinstance(c, (PList, PDict, KVDict, NSet, NMap, SList))
+        return False
 
     # subscripts -------------------------------------------------------
     def ex_Subscript(self, e, fr):
